@@ -9,3 +9,5 @@ import DvidModel.Props.C12
 import DvidModel.Props.C04
 import DvidModel.Props.C03
 import DvidModel.Props.C02
+import DvidModel.Props.C09
+import DvidModel.Props.C10
